@@ -153,6 +153,14 @@ pub fn order_family() -> Vec<Prog> {
     vec![vec![st(Read(1, e)), sg(1, Write(0, Src::One, e))], vec![st(Read(1, e)), sg(1, WriteDecl(0, Src::One, e))]],
     vec![vec![st(Read(1, e))], vec![st(Read(1, RC::Exists))]],
   ], 2));
+  // (D) Top(T0) starts requiring Upper(T1) -> Lower(T2) -> Leaf(T3) -> r0 when r0 becomes 1: a dynamic require of a task
+  //     whose only scheduled dependency is two levels down (Top must be ranked so that it is popped first)
+  out.extend(product(&[
+    vec![vec![st(Read(0, e)), sg(1, Req(1, q))], vec![st(Read(0, e)), sg(1, Req(1, a))]],
+    vec![vec![st(Req(2, q))]],
+    vec![vec![st(Req(3, q))]],
+    vec![vec![st(Read(0, e))], vec![st(Read(0, RC::Exists))]],
+  ], 1));
   // (C) Mid(T0) -> Leaf(T1) -> r0; Top(T2) -> {Leaf, Sub(T3) -> Mid}; when r0 becomes 1, Leaf requires Mid: a cycle
   //     that closes only after earlier sessions inserted edges whose endpoints' neighbourhoods interleave in rank
   //     (violating programs: only in the slices of C05-C07, C16, C17, C20).
